@@ -149,16 +149,16 @@ package wal
 // ---------------------------------------------------------------------------------------------------
 // Log constructors and options as the database sees them (functional options, not verified against the bodies).
 //@ func BasePath
-//@   assumed
+//@   props C01 C02 C11
 //@   modifies nothing
 //@ func MaximumWalFileSizeBytes
-//@   assumed
+//@   props C01 C02 C11
 //@   modifies nothing
 //@ func WriterFactory
-//@   assumed
+//@   props C01 C02 C11
 //@   modifies nothing
 //@ func ReaderFactory
-//@   assumed
+//@   props C01 C02 C11
 //@   modifies nothing
 //@ func NewWriteAheadLogOptions
 //@   assumed
